@@ -127,7 +127,7 @@ def _once(case, acc, nodes):
             node = stack.pop()
             stack.extend(node.children)
             for key, value in list(vars(node).items()):
-                if key.startswith("_NodeMixin"):
+                if c10.is_bookkeeping(key):
                     continue
                 if isinstance(value, list):
                     value.append("edited in place")
